@@ -171,6 +171,15 @@ def _add_field(msg_pb, full_msg_name, fld, real_oneofs, used_files, table):
         if "child_type" in fld["ref"]:
             rr.child_type = fld["ref"]["child_type"]
         used_files.add("google/api/resource.proto")
+    if fld.get("op_field") or fld.get("op_request_field") or fld.get("op_response_field"):
+        from google.cloud import extended_operations_pb2 as ex
+        if fld.get("op_field"):
+            f.options.Extensions[ex.operation_field] = ex.OperationResponseMapping.Value(fld["op_field"])
+        if fld.get("op_request_field"):
+            f.options.Extensions[ex.operation_request_field] = fld["op_request_field"]
+        if fld.get("op_response_field"):
+            f.options.Extensions[ex.operation_response_field] = fld["op_response_field"]
+        used_files.add("google/cloud/extended_operations.proto")
     if fld.get("format"):
         from google.api import field_info_pb2
         f.options.Extensions[field_info_pb2.field_info].format = \
@@ -292,6 +301,13 @@ def _add_service(fd, s, used_files, table, locs, idx):
                 oi.metadata_type = m["lro"]["metadata"]
             oi.SetInParent()
             used_files.add("google/longrunning/operations.proto")
+        if m.get("op_service") or m.get("op_polling"):
+            from google.cloud import extended_operations_pb2 as ex
+            if m.get("op_service"):
+                mpb.options.Extensions[ex.operation_service] = m["op_service"]
+            if m.get("op_polling"):
+                mpb.options.Extensions[ex.operation_polling_method] = True
+            used_files.add("google/cloud/extended_operations.proto")
         if m.get("deprecated"):
             mpb.options.deprecated = True
         if m.get("comment"):
